@@ -190,6 +190,25 @@ CLAIMED["C14"] = {
     "design_ref": "DESIGN.md section 8, C14",
 }
 
+CLAIMED["C16"] = {
+    "text": "Theorems about the collector/controller/printer model, for EVERY collector state, display configuration and message list: "
+            "C16_exit_table (exit status is 0 iff nothing was reported or no any-errors code is configured, else the configured code; the fatal "
+            "flag counts as reported -- C16_fatal_is_reported is `Gen.Facts.fatal_sets_any_errors_flag = true`, regenerated from controller.rs), "
+            "C16_total_counts_messages / C16_total_equals_shown (error total = reported + custom messages = number shown with no display option), "
+            "C16_mute (nothing shown), C16_cap (at most N shown), C16_filter_selection / C16_unique_codes / C16_code_match (a message is shown "
+            "under -w iff its bracketed code is one of the listed codes: exact match of the decimal code, not a prefix). Tied to the code by "
+            "running the rebuilt fastpasta binary on clean / k-error / fatally truncated / non-ALICE / missing / empty inputs x option "
+            "combinations (-E, -m, -w incl. prefixes, -e around the count, targeted -w/-e pairs predicted from the model, invalid combinations) "
+            "and comparing exit status, shown messages, report and statistics-file totals with the extracted model and with an independent "
+            "oracle; invalid combinations must leave no output file. Defect F11 (a fatal error alone left exit 0 under -E) was found by this "
+            "check and repaired by a fix: commit.",
+    "note": "Trusted: Coq kernel; gen translator; binary; extraction + driver; stderr/report parsing. Argument validation itself is compared "
+            "by the check (table of invalid combinations), not proved; the stop flag's timing (how many errors are collected after the cap is "
+            "hit) is a runtime race outside the model -- the oracle uses the collected list from the statistics file.",
+    "technique": "Coq proof (invariant over collector updates, list lemmas on filter/take, exit table by case analysis on a regenerated fact) + CLI correspondence against the rebuilt binary",
+    "design_ref": "DESIGN.md section 8, C16",
+}
+
 ALL = ["C%02d" % i for i in range(1, 21)]
 PENDING_REASON = "not claimed yet: the model/proof for this property is still under construction in this development (see DESIGN.md section 12 build order); no check is registered until its theorem file compiles without admits and its correspondence stream runs"
 
@@ -237,7 +256,7 @@ def main():
 
 
 HOOK_COMMITS = ["f32fed4"]
-FIX_COMMITS = ["2eb10e8", "024b878", "afd2aa3", "f731241", "add603d"]
+FIX_COMMITS = ["2eb10e8", "024b878", "afd2aa3", "f731241", "add603d", "adf846c"]
 NOT_APPLICABLE = {}
 
 if __name__ == "__main__":
